@@ -235,6 +235,9 @@ func (dm *DMap) setLRUEvictionStats(e *env) error {
 			if err != nil {
 				return err
 			}
+			// The eviction changed the fragment, the MaxInuse check below needs the current numbers:
+			// with the stale ones it evicts a second key, or fails when the first one emptied the fragment.
+			st = e.fragment.storage.Stats()
 		}
 	}
 
